@@ -246,6 +246,15 @@ def run(ctx):
                 return None
             if C.branch_when(b, atom_nn) == lab:
                 guarded = True
+
+            def unnamed(x, field=field, b=b):
+                if isinstance(x, ast.Call) and isinstance(x.func, ast.Name) and x.func.id == "isinstance" and len(x.args) == 2 and isinstance(x.args[0], ast.Name) \
+                        and not any(isinstance(y, ast.Name) and y.id in ("object", "NoneType") for y in ast.walk(x.args[1])) \
+                        and _none_when_unnamed(ctx, edit, x.args[0], b, field, request_params):
+                    return False
+                return None
+            if C.branch_when(b, unnamed) not in (None, lab):
+                guarded = True
         if not guarded:
             og = _opaque_none_guard(ctx, edit, node, request_params, field=field)
             if og is None and _guarded_by_table_row(ctx, edit, node, request_params, field):
@@ -314,6 +323,16 @@ def run(ctx):
                         return isinstance(x.ops[0], ast.IsNot)
                 return None
             if C.branch_when(b, atom_kv_nn) == lab:
+                named = True
+
+            def unnamed_kv(x, kv=kv, b=b):
+                # the world in which the request does not name the field: <request>.get(key) is None there
+                if isinstance(x, ast.Call) and isinstance(x.func, ast.Name) and x.func.id == "isinstance" and len(x.args) == 2 and isinstance(x.args[0], ast.Name) \
+                        and not any(isinstance(y, ast.Name) and y.id in ("object", "NoneType") for y in ast.walk(x.args[1])) \
+                        and _none_when_unnamed(ctx, edit, x.args[0], b, None, request_params, keyvar=kv):
+                    return False
+                return None
+            if C.branch_when(b, unnamed_kv) not in (None, lab):
                 named = True
         if not named:
             why = []
@@ -587,9 +606,24 @@ def _none_when_unnamed(ctx, fn, name_node, at, field, request_params, keyvar=Non
         return isinstance(e, ast.Call) and isinstance(e.func, ast.Attribute) and e.func.attr == "get" and isinstance(e.func.value, ast.Name) and e.func.value.id in request_params \
             and e.args and ((keyvar is None and const_str(e.args[0]) == field) or (keyvar is not None and isinstance(e.args[0], ast.Name) and e.args[0].id == keyvar)) \
             and (len(e.args) == 1 or (isinstance(e.args[1], ast.Constant) and e.args[1].value is None))
+    g_ = C.cfg_of(fn)
+
+    def only_when_not_none(d):
+        # a re-definition that runs only under isinstance(<this name>, T): it cannot run while the name holds None
+        for b_, lab_ in g_.control_deps(d.node):
+            t_ = C.test_expr(b_)
+            if lab_ == "true" and isinstance(t_, ast.Call) and isinstance(t_.func, ast.Name) and t_.func.id == "isinstance" and len(t_.args) == 2 \
+                    and isinstance(t_.args[0], ast.Name) and t_.args[0].id == name_node.id \
+                    and not any(isinstance(y, ast.Name) and y.id in ("object", "NoneType") for y in ast.walk(t_.args[1])):
+                return True
+        return False
+    if not any(is_get(d.value) or (isinstance(d.value, ast.Call) and len(d.value.args) == 1 and is_get(d.value.args[0])) for d in defs):
+        return False
     for d in defs:
         v = d.value
         if is_get(v):
+            continue
+        if only_when_not_none(d):
             continue
         if isinstance(v, ast.Call) and len(v.args) == 1 and not v.keywords and is_get(v.args[0]):
             tg = C.targets_of(ctx, fn, v)
